@@ -8,7 +8,7 @@ import operator as o
 
 import numpy as np
 
-from .. import gen_core, harness, refmask, snapshot
+from .. import gen_core, harness, readerfiles, refmask, snapshot
 from ..cli import digest
 
 PROP = 'C06'
@@ -26,6 +26,7 @@ RULE = ('binop: pairs of conforming files (same structure, independent '
         'and mask_vals string form). '
         'non-trivial = at least one non-coordinate variable was judged; '
         'distinct = digest of the spec.')
+RULE += (" One case in eight takes its operands from the library's READERS (the object a CAMx memory-mapped or record reader, bpch1, bpch2, arlpackedbit or ffi1001 returns for a valid image written by the independent codecs; second operand = its copy with other values): big-endian float32 data, +-max and denormal payloads, integer time flags; the time-flag variables of IOAPI-class files are the class's metadata and not judged here.")
 ASSUMPTIONS = [
     'cells masked in either operand are a don\'t-care region for the result '
     'MASK (the property does not say input masks propagate) but an unmasked '
@@ -55,8 +56,13 @@ def ncases(tier):
 
 def gen(rng, idx, tier, seed):
     mode = ['binop', 'binop', 'mask', 'eval'][idx % 4]
-    fs = gen_core.gen_filespec(rng, dtypes=DT, allow_char=False)
-    for v in fs['vars']:
+    if idx % 12 in (9, 10, 11) and (idx // 12) % 2 == 0:
+        # the operands are what a library reader returns for a valid image
+        fs = {'reader': readerfiles.gen_spec(rng, idx=idx // 24)}
+        mode = ['binop', 'mask', 'eval'][idx % 12 - 9]
+    else:
+        fs = gen_core.gen_filespec(rng, dtypes=DT, allow_char=False)
+    for v in fs.get('vars', []):
         if np.dtype(v['dtype']).kind == 'i':
             v['imax'] = 9
     spec = {'mode': mode, 'file': fs, 'seed': int(rng.integers(1 << 30))}
@@ -67,7 +73,9 @@ def gen(rng, idx, tier, seed):
         spec['inject'] = bool(rng.random() < 0.6)
         spec['dtype_shift'] = bool(rng.random() < 0.4)
         spec['disk'] = bool(idx % 16 == 4)
-        if idx % 8 in (1, 5):
+        if 'reader' in fs:
+            spec['inject'] = spec['dtype_shift'] = spec['disk'] = False
+        elif idx % 8 in (1, 5):
             # (a op b) op2 b: the intermediate result is the left operand
             spec['chain'] = names[int(rng.integers(len(names)))]
     elif mode == 'mask':
@@ -87,17 +95,26 @@ def gen(rng, idx, tier, seed):
         spec['kw'] = kw
         spec['coords'] = bool(rng.random() < 0.25)
         spec['inject'] = bool(rng.random() < 0.4)
-        if idx % 3 == 2 and 'where' not in kw:
+        if 'reader' in fs:
+            spec['inject'] = False
+        elif idx % 3 == 2 and 'where' not in kw:
             # command-line string form: one predicate per mask_vals call
             spec['via'] = 'mask_vals'
             spec['coords'] = False
     else:
         spec['nassign'] = int(rng.integers(1, 4))
-        if idx % 3 == 0:
+        if idx % 3 == 0 and 'reader' not in fs:
             spec['via'] = 'pncexpr'
         # a global attribute with the name of a variable the expression reads
         spec['shadow'] = bool(rng.random() < 0.3)
     return spec
+
+
+def timeflags(f):
+    """the time-flag variables of IOAPI-class files (the CAMx readers are
+    such): the class rebuilds them from its metadata after every operation
+    (C10/C12), they are not data"""
+    return {'TFLAG', 'ETFLAG'} if hasattr(f, 'updatemeta') else set()
 
 
 def inject(f, seed):
@@ -133,11 +150,36 @@ def second_spec(fs, seed, dtype_shift):
     return g
 
 
-def run_binop(spec, res):
+def second_of(a, seed):
+    """a conforming second operand for a reader file: its copy with other
+    values in every non-coordinate numeric variable"""
+    b = a.copy()
+    rng = np.random.default_rng([seed, 21])
+    coords = set(a.getCoords())
+    for k in b.variables.keys():
+        v = b.variables[k]
+        if k in coords or k.endswith('TFLAG') or v.ndim == 0 or \
+                np.dtype(v.dtype).kind not in 'fi':
+            continue
+        if np.dtype(v.dtype).kind == 'f':
+            v[...] = np.ma.getdata(v[...]) * float(rng.choice(
+                [0.5, 1.5, -2.0, 3.0])) + float(rng.choice([0., 0.25, 1.]))
+            flat = np.ma.getdata(v[...]).reshape(-1)
+            if flat.size and flat.base is not None:
+                flat[int(rng.integers(flat.size))] = 0.0
+        else:
+            v[...] = np.ma.getdata(v[...]) + int(rng.integers(0, 3))
+    return b
+
+
+def run_binop(spec, res, a=None):
     from PseudoNetCDF.core._functions import pncbo
-    a = gen_core.build(spec['file'])
-    b = gen_core.build(second_spec(spec['file'], spec['seed'],
-                                   spec['dtype_shift']))
+    if a is not None:
+        b = second_of(a, spec['seed'])
+    else:
+        a = gen_core.build(spec['file'])
+        b = gen_core.build(second_spec(spec['file'], spec['seed'],
+                                       spec['dtype_shift']))
     if spec['inject']:
         inject(a, spec['seed'])
         inject(b, spec['seed'] + 1)
@@ -200,6 +242,8 @@ def binop_once(spec, res, a, b, op, coords, pncbo, label):
     judged = 0
     domain_leaks = []
     for k, va in sa.vars.items():
+        if k in timeflags(a):
+            continue
         if k not in out.variables:
             problems.append('variable %s missing' % k)
             continue
@@ -209,6 +253,9 @@ def binop_once(spec, res, a, b, op, coords, pncbo, label):
             problems += ['coordinate ' + x for x in snapshot.check_var(
                 got, k, dims=va.dims, data=va.data, mask=va.mask,
                 dtype=va.dtype)]
+            continue
+        if k not in sb.vars:
+            # (CAMx reader files: the copy does not carry ETFLAG)
             continue
         vb = sb.vars[k]
         exp = np.asarray(ref[k])
@@ -291,13 +338,15 @@ EXPRS = ['{a} * 2', '{a} + {b}', 'np.abs({a}) - 1.5', '{a} / 4.', '-{a}',
          'np.ma.masked_greater(np.asarray({a}[...]), 1.) + {b}[...]']
 
 
-def run_eval(spec, res):
-    f = gen_core.build(spec['file'])
+def run_eval(spec, res, f=None):
+    if f is None:
+        f = gen_core.build(spec['file'])
     f.ATTR = 2.5
     rng = np.random.default_rng([spec['seed'], 11])
+    tf = timeflags(f)
     names = [k for k in f.variables.keys()
              if np.dtype(f.variables[k].dtype).kind in 'fi' and
-             f.variables[k].ndim > 0 and k.isidentifier()]
+             f.variables[k].ndim > 0 and k.isidentifier() and k not in tf]
     if not names:
         res.ev(digest(spec), False, 'no-operands')
         res.hook('eval.return', 0)
@@ -369,7 +418,7 @@ def run_eval(spec, res):
             rtol=16 * np.finfo('f4' if ed.dtype == np.float32 else 'f8').eps)
     if copyall:
         for k, vs in before.vars.items():
-            if k in out.variables and k not in targets:
+            if k in out.variables and k not in targets and k not in tf:
                 problems += snapshot.check_var(
                     snapshot.snap_var(out.variables[k]), k, dims=vs.dims,
                     data=vs.data, mask=vs.mask, dtype=vs.dtype)
@@ -381,8 +430,9 @@ def run_eval(spec, res):
                  expr=expr, via=via)
 
 
-def run_mask(spec, res):
-    f = gen_core.build(spec['file'])
+def run_mask(spec, res, f=None):
+    if f is None:
+        f = gen_core.build(spec['file'])
     if spec['inject']:
         inject(f, spec['seed'])
     before = snapshot.snap_file(f)
@@ -459,7 +509,7 @@ def run_mask(spec, res):
             continue
         got = snapshot.snap_var(out.variables[k])
         res.hook('oracle.compare')
-        if k in skip:
+        if k in skip or k in timeflags(f):
             continue
         if k in coords and not spec['coords']:
             problems += ['coordinate ' + x for x in snapshot.check_var(
@@ -481,7 +531,7 @@ def run_mask(spec, res):
             res.hook('mask.return')
             for k, vs in before.vars.items():
                 if k in skip or (k in coords and not spec['coords']) or \
-                        k not in out2.variables:
+                        k not in out2.variables or k in timeflags(f):
                     continue
                 ed, em = exp[k]
                 p2 = snapshot.check_var(snapshot.snap_var(out2.variables[k]),
@@ -501,5 +551,18 @@ def run_mask(spec, res):
 
 
 def run(spec, res):
+    rdr = spec['file'].get('reader')
+    if rdr:
+        with harness.casedir() as d:
+            f, status = readerfiles.open_reader(rdr, d)
+            res.facet('reader:%s:%s' % (rdr['kind'], status.split(':')[0]))
+            if f is None or snapshot.wellformed(f):
+                # (a malformed reader file is C01's finding)
+                res.note('reader-gave-no-file:' + status)
+                return
+            res.facet('source:reader:' + spec['mode'])
+            {'binop': run_binop, 'eval': run_eval,
+             'mask': run_mask}[spec['mode']](spec, res, f)
+        return
     {'binop': run_binop, 'eval': run_eval, 'mask': run_mask}[spec['mode']](
         spec, res)
